@@ -47,6 +47,7 @@ Tpl(name) ==
       [] name = "LM"  -> <<Lit(<<97, 98>>), PMsg>>
       [] name = "TM"  -> <<Lit(<<97, TAB, 98>>), PMsg>>
       [] name = "TB"  -> <<PMsg, Lit(<<TAB, 123, 32, 122, TAB, 125>>)>>      \* {msg}<TAB>{ z<TAB>}: an opening brace followed by a blank stands for itself
+      [] name = "TT"  -> <<Lit(<<97, TAB>>), PPos, Lit(<<TAB, 98>>)>>            \* a<TAB>{pos}<TAB>b: two literal parts with a tab each
       [] name = "C"   -> <<PPos, Lit(<<47>>), PLen>>
       [] name = "MC"  -> <<PMsg, PPos>>
       [] name = "KM"  -> <<PKey, PMsg>>
@@ -78,7 +79,10 @@ Render(b) == IF b.fin = "hid" THEN <<>> ELSE RenderFrom(Tpl(b.tpl), 1, <<>>, <<>
 (* ------------------------------ state ---------------------------------- *)
 SInit(w, h, multi, mphid, align) ==
     [w |-> w, h |-> h, multi |-> multi, mphid |-> mphid, align |-> align,
-     above |-> <<>>, order |-> <<>>, bars |-> <<>>, ids |-> {}, bottom |-> 0, everBottom |-> align = "bottom", blanked |-> FALSE, faulty |-> FALSE, wasCut |-> FALSE, pty |-> FALSE,
+     above |-> <<>>, order |-> <<>>, bars |-> <<>>, ids |-> {}, bottom |-> 0, everBottom |-> align = "bottom", blanked |-> FALSE, faulty |-> FALSE,
+     transient |-> FALSE,   \* the injected terminal failure was a single one and has happened: the terminal works again
+     pendingOnce |-> FALSE, \* a single failure has been armed and has not happened yet
+     wasCut |-> FALSE, pty |-> FALSE,
      unlim |-> FALSE,       \* the MultiProgress draws to a target without refresh rate (term_like): no draw request is ever skipped (set by the monitor from the configuration)
      ghosts |-> FALSE]      \* a member was unlinked by set_draw_target / added again: its old slot still counts for index-based insertion
 
@@ -185,7 +189,7 @@ Apply(S, r) ==
       [] r.op = "abandon"              -> fin("Abandon", <<>>)
       [] r.op = "abandon_with_message" -> fin("AbandonWithMessage", r.m)
       [] r.op = "finish_using_style"   -> fin(B.onfin, B.fm)
-      [] r.op = "force_draw"    -> Res(Req(S, b), <<>>, vis, FALSE)
+      [] r.op \in {"force_draw", "fburst"} -> Res(Req(S, b), <<>>, vis, FALSE)          \* fburst: n forced draws in a row
       [] r.op = "iter" ->
             (* ProgressBarIter over r.n items: +1 per item, then the finish behaviour once *)
             LET B1 == [B EXCEPT !.pos = B.pos + r.n]
@@ -216,10 +220,11 @@ Apply(S, r) ==
                          EXCEPT !.order = Remove(S.order, b),
                                 !.above = SelectSeq(S.above, LAMBDA it : ~(it.k = "st" /\ it.b = b))], <<>>, ~S.mphid, FALSE)
             ELSE Plain(S)
-      [] r.op = "set_target" ->
+      [] r.op \in {"set_target", "to_hidden_mp"} ->
             (* ProgressBar::set_draw_target.  A member of a MultiProgress is unlinked: the MultiProgress repaints without its   *)
             (* lines; a standalone bar just stops using its old target, so what that painted last stays on the terminal as text *)
-            LET v == r.target \in {"spy", "spy_hz"} IN
+            (* to_hidden_mp: MultiProgress::add of the bar to ANOTHER MultiProgress, whose target is hidden: the bar leaves this one like above *)
+            LET v == r.op = "set_target" /\ r.target \in {"spy", "spy_hz"} IN
             IF S.multi
             THEN IF B.inmp
                  THEN Res([SetBar(S, b, [B EXCEPT !.vis = FALSE, !.inmp = FALSE, !.drawn = FALSE, !.pend = <<>>, !.onscr = <<>>])
